@@ -594,6 +594,12 @@ let rec forallb f = function
 | [] -> true
 | a :: l0 -> (&&) (f a) (forallb f l0)
 
+(** val filter : ('a1 -> bool) -> 'a1 list -> 'a1 list **)
+
+let rec filter f = function
+| [] -> []
+| x :: l0 -> if f x then x :: (filter f l0) else filter f l0
+
 (** val repeat : 'a1 -> nat -> 'a1 list **)
 
 let rec repeat x = function
@@ -7863,6 +7869,419 @@ let run_run = function
                | None -> bad_input)
             | _ :: _ -> bad_input))))
 
+type sentry = char list * (char list * bool)
+
+type sframe = sentry list
+
+type senv = sframe list
+
+(** val sget : char list -> sframe -> (char list * bool) option **)
+
+let rec sget x = function
+| [] -> None
+| s :: r -> let (y, tc) = s in if eqb0 x y then Some tc else sget x r
+
+(** val sgets : char list -> senv -> (char list * bool) option **)
+
+let rec sgets x = function
+| [] -> None
+| f :: r -> (match sget x f with
+             | Some tc -> Some tc
+             | None -> sgets x r)
+
+(** val slookup : char list -> senv -> sframe -> (char list * bool) option **)
+
+let slookup x g m =
+  match sgets x g with
+  | Some tc -> Some tc
+  | None -> sget x m
+
+(** val bound : char list -> senv -> sframe -> bool **)
+
+let bound x g m =
+  match slookup x g m with
+  | Some _ -> true
+  | None -> false
+
+(** val clean_init : cexp option -> bool **)
+
+let clean_init = function
+| Some c -> (match c with
+             | CInt _ -> true
+             | _ -> false)
+| None -> true
+
+(** val entry_of_decl : decl -> sentry **)
+
+let entry_of_decl d =
+  (d.d_name, (d.d_type, (clean_init d.d_init)))
+
+(** val entry_of_member : member -> sentry **)
+
+let entry_of_member m =
+  (m.m_name, (m.m_type, true))
+
+(** val loop_entry : char list -> sentry **)
+
+let loop_entry x =
+  (x, (('a'::('u'::('t'::('o'::[])))), false))
+
+(** val member_env : program -> sframe **)
+
+let member_env p =
+  map entry_of_member p.p_members
+
+(** val decls_stmt : stmt -> char list list **)
+
+let rec decls_stmt = function
+| SFor (x, _, b) -> x :: (decls_block b)
+| SIf (_, b, els) ->
+  app (decls_block b) (match els with
+                       | Some b2 -> decls_block b2
+                       | None -> [])
+| SBlk b -> decls_block b
+| _ -> []
+
+(** val decls_block : block -> char list list **)
+
+and decls_block = function
+| Blk (ds, body) -> app (map (fun d -> d.d_name) ds) (decls_stmts body)
+
+(** val decls_stmts : stmts -> char list list **)
+
+and decls_stmts = function
+| SNil -> []
+| SCons (s, r) -> app (decls_stmt s) (decls_stmts r)
+
+(** val declared_names : program -> char list list **)
+
+let declared_names p =
+  app (map (fun m -> m.m_name) p.p_members) (decls_block p.p_body)
+
+(** val dups : char list list -> char list list **)
+
+let rec dups = function
+| [] -> []
+| x :: r -> if mem_str x r then x :: (dups r) else dups r
+
+(** val dup_errs : program -> char list list **)
+
+let dup_errs p =
+  dups (declared_names p)
+
+(** val sc_name : senv -> sframe -> char list -> char list list **)
+
+let sc_name g m x =
+  if bound x g m then [] else x :: []
+
+(** val sc_idents :
+    char list list -> senv -> sframe -> char list list -> char list list **)
+
+let sc_idents d g m ids =
+  filter (fun x -> (&&) (mem_str x d) (negb (bound x g m))) ids
+
+(** val sc_exp :
+    char list list -> senv -> sframe -> cexp -> char list list **)
+
+let sc_exp d =
+  let rec sc_exp0 g m = function
+  | CVar x -> sc_name g m x
+  | CBin (_, a, b) -> app (sc_exp0 g m a) (sc_exp0 g m b)
+  | CUn (_, a) -> sc_exp0 g m a
+  | CNot a -> sc_exp0 g m a
+  | CDeref a -> sc_exp0 g m a
+  | CCall (_, args) -> sc_args g m args
+  | CMeth (o, _, _, args) -> app (sc_exp0 g m o) (sc_args g m args)
+  | CField (o, _, _) -> sc_exp0 g m o
+  | CCast (_, a) -> sc_exp0 g m a
+  | CSubI (a, b) -> app (sc_exp0 g m a) (sc_exp0 g m b)
+  | COpaque (_, ids) -> sc_idents d g m ids
+  | _ -> []
+  and sc_args g m = function
+  | CNil -> []
+  | CCons (e, r) -> app (sc_exp0 g m e) (sc_args g m r)
+  in sc_exp0
+
+(** val sc_decls :
+    char list list -> senv -> sframe -> sframe -> decl list -> char list list **)
+
+let rec sc_decls d g m cur = function
+| [] -> []
+| d0 :: r ->
+  app (match d0.d_init with
+       | Some e -> sc_exp d (cur :: g) m e
+       | None -> []) (sc_decls d g m (app cur ((entry_of_decl d0) :: [])) r)
+
+(** val sc_block :
+    char list list -> senv -> sframe -> sframe -> block -> char list list **)
+
+let sc_block d =
+  let rec sc_stmt g m = function
+  | SSet (x, _, e) -> app (sc_exp d g m e) (sc_name g m x)
+  | SPush (x, _, e) -> app (sc_exp d g m e) (sc_name g m x)
+  | SClear x -> sc_name g m x
+  | SFetch (_, target, _, _, _) -> sc_name g m target
+  | SIota (v, b) -> app (sc_name g m v) (sc_name g m b)
+  | SUser (_, ids, target) ->
+    app (sc_idents d g m ids)
+      (match target with
+       | Some t -> sc_name g m t
+       | None -> [])
+  | SLine (_, ids) -> sc_idents d g m ids
+  | SFor (x, e, b) ->
+    app (sc_exp d g m e) (sc_block0 g m ((loop_entry x) :: []) b)
+  | SIf (c, b, els) ->
+    app (sc_exp d g m c)
+      (app (sc_block0 g m [] b)
+        (match els with
+         | Some b2 -> sc_block0 g m [] b2
+         | None -> []))
+  | SBlk b -> sc_block0 g m [] b
+  | _ -> []
+  and sc_block0 g m pre = function
+  | Blk (ds, body) ->
+    app (sc_decls d g m pre ds)
+      (sc_stmts ((app pre (map entry_of_decl ds)) :: g) m body)
+  and sc_stmts g m = function
+  | SNil -> []
+  | SCons (s, r) -> app (sc_stmt g m s) (sc_stmts g m r)
+  in sc_block0
+
+(** val scope_errs : program -> char list list **)
+
+let scope_errs p =
+  sc_block (declared_names p) [] (member_env p) [] p.p_body
+
+(** val branch_errs : program -> char list list **)
+
+let branch_errs p =
+  filter (fun x -> negb (mem_str x (map (fun m -> m.m_name) p.p_members)))
+    (map (fun b -> b.br_var) p.p_branches)
+
+(** val is_int_type : char list -> bool **)
+
+let is_int_type t =
+  (||) (eqb0 t ('i'::('n'::('t'::[]))))
+    (eqb0 t ('b'::('o'::('o'::('l'::[])))))
+
+(** val assoc_str :
+    char list -> (char list * char list) list -> char list option **)
+
+let rec assoc_str k = function
+| [] -> None
+| p :: r -> let (a, b) = p in if eqb0 k a then Some b else assoc_str k r
+
+(** val int_method : (char list * char list) list -> char list -> bool **)
+
+let int_method mt m =
+  match assoc_str m mt with
+  | Some t -> is_int_type t
+  | None -> false
+
+(** val ty_int :
+    (char list * char list) list -> senv -> sframe -> cexp -> bool **)
+
+let rec ty_int mt g m = function
+| CVar x ->
+  (match slookup x g m with
+   | Some p -> let (t, _) = p in is_int_type t
+   | None -> false)
+| CInt _ -> true
+| CBool _ -> true
+| CBin (_, a, b) -> (&&) (ty_int mt g m a) (ty_int mt g m b)
+| CUn (_, a) -> ty_int mt g m a
+| CNot _ -> true
+| CMeth (_, _, m0, _) ->
+  (&&) (int_method mt m0) (negb (eqb0 m0 ('a'::('t'::[]))))
+| CField (_, _, m0) ->
+  (&&) (int_method mt m0) (negb (eqb0 m0 ('a'::('t'::[]))))
+| CCast (t, _) -> is_int_type t
+| _ -> false
+
+(** val ty_exp :
+    (char list * char list) list -> senv -> sframe -> cexp -> char list list **)
+
+let ty_exp mt =
+  let rec ty_exp0 g m = function
+  | CBin (op, a, b) ->
+    app
+      (if eqb0 op ('%'::[])
+       then app
+              (if ty_int mt g m a
+               then []
+               else (append
+                      ('%'::('-'::('o'::('p'::('e'::('r'::('a'::('n'::('d'::(':'::[]))))))))))
+                      (pr_exp a)) :: [])
+              (if ty_int mt g m b
+               then []
+               else (append
+                      ('%'::('-'::('o'::('p'::('e'::('r'::('a'::('n'::('d'::(':'::[]))))))))))
+                      (pr_exp b)) :: [])
+       else []) (app (ty_exp0 g m a) (ty_exp0 g m b))
+  | CUn (_, a) -> ty_exp0 g m a
+  | CNot a -> ty_exp0 g m a
+  | CDeref a -> ty_exp0 g m a
+  | CCall (_, args) -> ty_args g m args
+  | CMeth (o, _, _, args) -> app (ty_exp0 g m o) (ty_args g m args)
+  | CField (o, _, _) -> ty_exp0 g m o
+  | CCast (_, a) -> ty_exp0 g m a
+  | CSubI (a, b) -> app (ty_exp0 g m a) (ty_exp0 g m b)
+  | _ -> []
+  and ty_args g m = function
+  | CNil -> []
+  | CCons (e, r) -> app (ty_exp0 g m e) (ty_args g m r)
+  in ty_exp0
+
+(** val ty_target :
+    senv -> sframe -> char list -> (char list -> bool -> bool) -> char list
+    -> char list list **)
+
+let ty_target g m x ok what =
+  match slookup x g m with
+  | Some p ->
+    let (t, c) = p in
+    if ok t c then [] else (append what (append (':'::[]) x)) :: []
+  | None ->
+    (append ('u'::('n'::('t'::('y'::('p'::('e'::('d'::(':'::[])))))))) x) :: []
+
+(** val ty_cond : senv -> sframe -> cexp -> char list list **)
+
+let ty_cond g m = function
+| CVar x ->
+  (match slookup x g m with
+   | Some p ->
+     let (t, _) = p in
+     if is_vector_type t
+     then (append
+            ('v'::('e'::('c'::('t'::('o'::('r'::('-'::('c'::('o'::('n'::('d'::('i'::('t'::('i'::('o'::('n'::(':'::[])))))))))))))))))
+            x) :: []
+     else []
+   | None -> [])
+| _ -> []
+
+(** val ty_decls :
+    (char list * char list) list -> senv -> sframe -> sframe -> decl list ->
+    char list list **)
+
+let rec ty_decls mt g m cur = function
+| [] -> []
+| d :: r ->
+  app (match d.d_init with
+       | Some e -> ty_exp mt (cur :: g) m e
+       | None -> []) (ty_decls mt g m (app cur ((entry_of_decl d) :: [])) r)
+
+(** val ty_block :
+    (char list * char list) list -> senv -> sframe -> sframe -> block ->
+    char list list **)
+
+let ty_block mt =
+  let rec ty_stmt g m = function
+  | SSet (x, _, e) ->
+    app (ty_exp mt g m e)
+      (ty_target g m x (fun t _ -> negb (is_vector_type t))
+        ('a'::('s'::('s'::('i'::('g'::('n'::('e'::('d'::('-'::('v'::('e'::('c'::('t'::('o'::('r'::[]))))))))))))))))
+  | SPush (x, _, e) ->
+    app (ty_exp mt g m e)
+      (ty_target g m x (fun t c -> (&&) (is_vector_type t) c)
+        ('p'::('u'::('s'::('h'::('_'::('b'::('a'::('c'::('k'::('-'::('o'::('n'::('-'::('n'::('o'::('n'::('-'::('v'::('e'::('c'::('t'::('o'::('r'::[]))))))))))))))))))))))))
+  | SClear x ->
+    ty_target g m x (fun t c -> (&&) (is_vector_type t) c)
+      ('c'::('l'::('e'::('a'::('r'::('-'::('o'::('n'::('-'::('n'::('o'::('n'::('-'::('v'::('e'::('c'::('t'::('o'::('r'::[])))))))))))))))))))
+  | SFetch (_, target, _, _, _) ->
+    ty_target g m target (fun t _ ->
+      (&&) (negb (is_int_type t)) (negb (is_vector_type t)))
+      ('c'::('o'::('l'::('l'::('e'::('c'::('t'::('i'::('o'::('n'::('-'::('i'::('n'::('t'::('o'::('-'::('s'::('c'::('a'::('l'::('a'::('r'::[]))))))))))))))))))))))
+  | SIota (v, b) ->
+    app
+      (ty_target g m v (fun t _ -> is_vector_type t)
+        ('i'::('o'::('t'::('a'::('-'::('o'::('n'::('-'::('n'::('o'::('n'::('-'::('v'::('e'::('c'::('t'::('o'::('r'::[])))))))))))))))))))
+      (ty_target g m b (fun t _ -> is_int_type t)
+        ('i'::('o'::('t'::('a'::('-'::('s'::('t'::('a'::('r'::('t'::('-'::('n'::('o'::('t'::('-'::('i'::('n'::('t'::[])))))))))))))))))))
+  | SFor (x, e, b) ->
+    app (ty_exp mt g m e) (ty_block0 g m ((loop_entry x) :: []) b)
+  | SIf (c, b, els) ->
+    app (ty_exp mt g m c)
+      (app (ty_cond g m c)
+        (app (ty_block0 g m [] b)
+          (match els with
+           | Some b2 -> ty_block0 g m [] b2
+           | None -> [])))
+  | SBlk b -> ty_block0 g m [] b
+  | _ -> []
+  and ty_block0 g m pre = function
+  | Blk (ds, body) ->
+    app (ty_decls mt g m pre ds)
+      (ty_stmts ((app pre (map entry_of_decl ds)) :: g) m body)
+  and ty_stmts g m = function
+  | SNil -> []
+  | SCons (s, r) -> app (ty_stmt g m s) (ty_stmts g m r)
+  in ty_block0
+
+(** val type_errs :
+    (char list * char list) list -> program -> char list list **)
+
+let type_errs mt p =
+  ty_block mt [] (member_env p) [] p.p_body
+
+(** val d_pair_ss : sexp -> (char list * char list) option **)
+
+let d_pair_ss = function
+| SAtom _ -> None
+| SList l ->
+  (match l with
+   | [] -> None
+   | s0 :: l0 ->
+     (match s0 with
+      | SAtom a ->
+        (match l0 with
+         | [] -> None
+         | s1 :: l1 ->
+           (match s1 with
+            | SAtom b -> (match l1 with
+                          | [] -> Some (a, b)
+                          | _ :: _ -> None)
+            | SList _ -> None))
+      | SList _ -> None))
+
+(** val run_check : sexp -> sexp **)
+
+let run_check = function
+| SAtom _ -> bad_input
+| SList l ->
+  (match l with
+   | [] -> bad_input
+   | p :: l0 ->
+     (match l0 with
+      | [] -> bad_input
+      | s0 :: l1 ->
+        (match s0 with
+         | SAtom _ -> bad_input
+         | SList mts ->
+           (match l1 with
+            | [] ->
+              (match d_program p with
+               | Some p' ->
+                 (match d_list d_pair_ss mts with
+                  | Some mt ->
+                    s_tag ('o'::('k'::[]))
+                      ((s_tag
+                         ('u'::('n'::('i'::('q'::('u'::('e'::('_'::('d'::('e'::('c'::('l'::('s'::[]))))))))))))
+                         ((s_strs (dup_errs p')) :: [])) :: ((s_tag
+                                                               ('w'::('e'::('l'::('l'::('_'::('s'::('c'::('o'::('p'::('e'::('d'::[])))))))))))
+                                                               ((s_strs
+                                                                  (scope_errs
+                                                                    p')) :: [])) :: (
+                      (s_tag
+                        ('t'::('y'::('p'::('e'::('s'::('_'::('o'::('k'::[]))))))))
+                        ((s_strs (type_errs mt p')) :: [])) :: ((s_tag
+                                                                  ('b'::('r'::('a'::('n'::('c'::('h'::('_'::('m'::('e'::('m'::('b'::('e'::('r'::('s'::[]))))))))))))))
+                                                                  ((s_strs
+                                                                    (branch_errs
+                                                                    p')) :: [])) :: []))))
+                  | None -> bad_input)
+               | None -> bad_input)
+            | _ :: _ -> bad_input))))
+
 (** val dispatch : char list -> sexp -> sexp **)
 
 let dispatch cmd arg =
@@ -7877,6 +8296,9 @@ let dispatch cmd arg =
             else if eqb0 cmd
                       ('c'::('p'::('p'::('.'::('r'::('u'::('n'::[])))))))
                  then run_run arg
-                 else s_tag
-                        ('u'::('n'::('k'::('n'::('o'::('w'::('n'::('-'::('c'::('o'::('m'::('m'::('a'::('n'::('d'::[])))))))))))))))
-                        ((SAtom cmd) :: [])
+                 else if eqb0 cmd
+                           ('c'::('0'::('2'::('.'::('c'::('h'::('e'::('c'::('k'::[])))))))))
+                      then run_check arg
+                      else s_tag
+                             ('u'::('n'::('k'::('n'::('o'::('w'::('n'::('-'::('c'::('o'::('m'::('m'::('a'::('n'::('d'::[])))))))))))))))
+                             ((SAtom cmd) :: [])
